@@ -42,6 +42,7 @@ func runC07(c *Ctx) {
 	fname := sqlPkgRel + ".(*Persister).GetRelationTuples"
 	var orderCol, orderDir, cursorCol, cursorOp, cursorArg, limitExpr string
 	var limitBase string
+	var limitBaseE ast.Expr
 	ast.Inspect(fd.Body, func(n ast.Node) bool {
 		call, ok := n.(*ast.CallExpr)
 		if !ok {
@@ -68,10 +69,8 @@ func runC07(c *Ctx) {
 			}
 		case "Limit":
 			limitExpr = canonExpr(call.Args[0])
-			if be, ok := ast.Unparen(call.Args[0]).(*ast.BinaryExpr); ok && be.Op == token.ADD {
-				if one, ok := be.Y.(*ast.BasicLit); ok && one.Value == "1" {
-					limitBase = canonExpr(be.X)
-				}
+			if base, k, ok := plusConst(info, call.Args[0]); ok && k == 1 {
+				limitBase, limitBaseE = canonExpr(base), base
 			}
 		}
 		return true
@@ -89,8 +88,13 @@ func runC07(c *Ctx) {
 			}
 		}
 	}
-	// has-more branch
+	// has-more branch, matched structurally (names, parentheses, operand order and
+	// branch polarity do not matter): the assignment of the next token is control
+	// dependent on len(V) > B; in the same branch V is cut to V[:len(V)-1] (or
+	// V[:B]); the token is read from V[len(V)-1] (or V[B-1]).
 	var hasMoreBase, truncExpr, tokenField, tokenIndex string
+	var hasMoreE, rowsV ast.Expr
+	truncOK, tokIdxOK := false, false
 	tokenAssigns, tokenAssignsInBranch := 0, 0
 	var resultTok types.Object
 	if fd.Type.Results != nil {
@@ -102,56 +106,92 @@ func runC07(c *Ctx) {
 			}
 		}
 	}
-	ast.Inspect(fd.Body, func(n ast.Node) bool {
-		switch x := n.(type) {
-		case *ast.IfStmt:
-			be, ok := x.Cond.(*ast.BinaryExpr)
-			if !ok {
-				return true
+	// the guard "len(V) > B" as seen from a statement
+	hasMoreGuard := func(st ast.Node) (v, b ast.Expr, cond ast.Expr, ok bool) {
+		for _, g := range guardsOf(fd.Body, st) {
+			op, x, y, isCmp := cmpParts(info, g.Cond)
+			if !isCmp {
+				continue
 			}
-			if cl, ok := be.X.(*ast.CallExpr); ok {
-				if id, ok := cl.Fun.(*ast.Ident); ok && id.Name == "len" && (be.Op == token.GTR) {
-					// candidate has-more test: contains the token assignment
-					hasTok := false
-					ast.Inspect(x.Body, func(n2 ast.Node) bool {
-						if as, ok := n2.(*ast.AssignStmt); ok {
-							for i, l := range as.Lhs {
-								if li, ok := l.(*ast.Ident); ok && resultTok != nil && info.Uses[li] == resultTok {
-									hasTok = true
-									tokenAssignsInBranch++
-									// token source: f(res[idx].Field)
-									ast.Inspect(as.Rhs[i], func(n3 ast.Node) bool {
-										if se, ok := n3.(*ast.SelectorExpr); ok {
-											if ix, ok := se.X.(*ast.IndexExpr); ok {
-												tokenField = se.Sel.Name
-												tokenIndex = canonExpr(ix.Index)
-											}
-										}
-										return true
-									})
-								} else if sl, ok := as.Rhs[i].(*ast.SliceExpr); ok {
-									truncExpr = canonExpr(sl)
-								}
-							}
-						}
-						return true
-					})
-					if hasTok {
-						hasMoreBase = canonExpr(be.Y)
-					}
+			if !g.True {
+				op, _ = negTok(op)
+			}
+			if c, isCall := x.(*ast.CallExpr); isCall && op == token.GTR && len(c.Args) == 1 {
+				if id, isID := unparen(c.Fun).(*ast.Ident); isID && id.Name == "len" {
+					return unparen(c.Args[0]), y, g.Cond, true
 				}
 			}
-		case *ast.AssignStmt:
-			for _, l := range x.Lhs {
-				if li, ok := l.(*ast.Ident); ok && resultTok != nil && info.Uses[li] == resultTok {
-					tokenAssigns++
+			if c, isCall := y.(*ast.CallExpr); isCall && op == token.LSS && len(c.Args) == 1 {
+				if id, isID := unparen(c.Fun).(*ast.Ident); isID && id.Name == "len" {
+					return unparen(c.Args[0]), x, g.Cond, true
 				}
 			}
 		}
+		return nil, nil, nil, false
+	}
+	var hasMoreCond ast.Expr
+	ast.Inspect(fd.Body, func(n ast.Node) bool {
+		as, ok := n.(*ast.AssignStmt)
+		if !ok {
+			return true
+		}
+		for i, l := range as.Lhs {
+			if resultTok == nil || objOf(info, l) != resultTok || i >= len(as.Rhs) {
+				continue
+			}
+			tokenAssigns++
+			v, b, cond, ok := hasMoreGuard(as)
+			if !ok {
+				continue
+			}
+			tokenAssignsInBranch++
+			rowsV, hasMoreE, hasMoreCond = v, b, cond
+			hasMoreBase = canonExpr(b)
+			ast.Inspect(as.Rhs[i], func(n3 ast.Node) bool {
+				se, ok := n3.(*ast.SelectorExpr)
+				if !ok {
+					return true
+				}
+				ix, ok := unparen(se.X).(*ast.IndexExpr)
+				if !ok || !sameExpr(info, ix.X, v) {
+					return true
+				}
+				tokenField, tokenIndex = se.Sel.Name, canonExpr(ix.Index)
+				if base, k, ok := minusConst(info, ix.Index); ok && k == 1 && (isLenOf(info, base, v) || sameExpr(info, base, b)) {
+					tokIdxOK = true
+				}
+				return true
+			})
+		}
 		return true
 	})
-	nows := func(s string) string { return strings.ReplaceAll(s, " ", "") }
-	truncExpr, tokenIndex, hasMoreBase, limitBase = nows(truncExpr), nows(tokenIndex), nows(hasMoreBase), nows(limitBase)
+	if rowsV != nil {
+		ast.Inspect(fd.Body, func(n ast.Node) bool {
+			as, ok := n.(*ast.AssignStmt)
+			if !ok {
+				return true
+			}
+			for i, rhs := range as.Rhs {
+				sl, ok := unparen(rhs).(*ast.SliceExpr)
+				if !ok || i >= len(as.Lhs) || !sameExpr(info, sl.X, rowsV) || !sameExpr(info, as.Lhs[i], rowsV) {
+					continue
+				}
+				if _, _, cond, ok := hasMoreGuard(as); !ok || cond != hasMoreCond {
+					continue
+				}
+				truncExpr = canonExpr(sl)
+				if sl.Low == nil && sl.High != nil {
+					if base, k, ok := minusConst(info, sl.High); ok && k == 1 && isLenOf(info, base, rowsV) {
+						truncOK = true
+					} else if sameExpr(info, sl.High, hasMoreE) {
+						truncOK = true
+					}
+				}
+			}
+			return true
+		})
+	}
+	limitOK := limitBaseE != nil && hasMoreE != nil && sameExpr(info, limitBaseE, hasMoreE)
 	tokCol := m.ColOfField[tokenField]
 	var bad []string
 	if orderCol == "" || cursorCol == "" || tokCol == "" {
@@ -174,13 +214,13 @@ func runC07(c *Ctx) {
 	}
 	if hasMoreBase == "" {
 		bad = append(bad, "no has-more branch 'len(rows) > <page size>' that assigns the next token")
-	} else if limitBase != hasMoreBase {
+	} else if !limitOK {
 		bad = append(bad, fmt.Sprintf("LIMIT is %s but has-more compares len(rows) with %s: for page sizes where they differ a full page has no token or a short page has one", limitExpr, hasMoreBase))
 	}
-	if truncExpr != "res[:len(res)-1]" && !strings.HasSuffix(truncExpr, "[:"+hasMoreBase+"]") {
+	if !truncOK {
 		bad = append(bad, "the has-more branch truncates with "+truncExpr+", which is not 'drop exactly the extra row'")
 	}
-	if tokenIndex != "len(res)-1" && tokenIndex != hasMoreBase+"-1" {
+	if !tokIdxOK {
 		bad = append(bad, "the next token is taken from index "+tokenIndex+", not from the last kept row")
 	}
 	if tokenAssigns != tokenAssignsInBranch || tokenAssigns != 1 {
@@ -230,30 +270,52 @@ func runC07(c *Ctx) {
 				bad = append(bad, "the traversal pages on "+cur+", not on the unique shard_id")
 			}
 			limArg := ""
+			var limE, curE ast.Expr
 			if st.Limit != nil && st.Limit.Kind == "?" {
-				limArg = canonExpr(smp.Args[st.Limit.QIdx])
+				limE = smp.Args[st.Limit.QIdx]
+				limArg = canonExpr(limE)
 			} else {
 				bad = append(bad, "LIMIT is not a bound placeholder")
 			}
-			// continuation: len(rows) == limit -> shardID = rows[limit-1].ID
+			for _, a := range st.Where.Conjuncts() {
+				if a.Op == "atom" && (a.Cmp == ">" || a.Cmp == ">=") && a.Right == "?" {
+					curE = smp.Args[a.QIdx]
+				}
+			}
+			// continuation, matched structurally: an assignment  cursor = V[L-1].F  (or V[len(V)-1].F)
+			// that is control dependent on len(V) == L (a full page), in either branch polarity
 			tfd := core.FuncDecl(m.Pkg, "Traverser.TraverseSubjectSetExpansion")
 			contOK := false
-			if tfd != nil {
+			if tfd != nil && limE != nil && curE != nil {
 				ast.Inspect(tfd.Body, func(n ast.Node) bool {
-					ifs, ok := n.(*ast.IfStmt)
+					as, ok := n.(*ast.AssignStmt)
+					if !ok || len(as.Lhs) != 1 || len(as.Rhs) != 1 || !sameExpr(info, as.Lhs[0], curE) {
+						return true
+					}
+					se, ok := unparen(as.Rhs[0]).(*ast.SelectorExpr)
 					if !ok {
 						return true
 					}
-					cond := strings.ReplaceAll(canonExpr(ifs.Cond), " ", "")
-					if cond != "len(rows)=="+limArg {
+					ix, ok := unparen(se.X).(*ast.IndexExpr)
+					if !ok {
 						return true
 					}
-					for _, s := range ifs.Body.List {
-						if as, ok := s.(*ast.AssignStmt); ok && len(as.Lhs) == 1 {
-							rhs := strings.ReplaceAll(canonExpr(as.Rhs[0]), " ", "")
-							if canonExpr(as.Lhs[0]) == arg && (rhs == "rows["+limArg+"-1].ID" || rhs == "rows[len(rows)-1].ID") {
-								contOK = true
-							}
+					v := unparen(ix.X)
+					base, k, ok := minusConst(info, ix.Index)
+					if !ok || k != 1 || !(sameExpr(info, base, limE) || isLenOf(info, base, v)) {
+						return true
+					}
+					for _, g := range guardsOf(tfd.Body, as) {
+						op, x, y, isCmp := cmpParts(info, g.Cond)
+						if !isCmp {
+							continue
+						}
+						if !g.True {
+							op, _ = negTok(op)
+						}
+						full := (isLenOf(info, x, v) && sameExpr(info, y, limE)) || (isLenOf(info, y, v) && sameExpr(info, x, limE))
+						if full && (op == token.EQL || op == token.GEQ) {
+							contOK = true
 						}
 					}
 					return true
@@ -291,10 +353,10 @@ func r071order(c *Ctx, fd *ast.FuncDecl, fname string) {
 			if i >= len(as.Rhs) {
 				break
 			}
-			if _, ok := as.Rhs[i].(*ast.SliceExpr); ok {
+			if _, ok := unparen(as.Rhs[i]).(*ast.SliceExpr); ok {
 				truncPos = as.Pos()
 			}
-			if call, ok := as.Rhs[i].(*ast.CallExpr); ok && strings.Contains(canonExpr(call.Fun), "encodeNextPageToken") {
+			if call, ok := unparen(as.Rhs[i]).(*ast.CallExpr); ok && strings.Contains(canonExpr(call.Fun), "encodeNextPageToken") {
 				tokPos = as.Pos()
 			}
 		}
@@ -668,12 +730,13 @@ func r075(c *Ctx, rule string) {
 					if !ok || (bo.Op != token.NEQ && bo.Op != token.EQL) {
 						return
 					}
-					k, ok := bo.Y.(*ssa.Const)
+					_, cx, cy, _ := core.BinCmp(bo)
+					k, ok := cy.(*ssa.Const)
 					if !ok || k.Value == nil || k.Value.ExactString() != `""` {
 						return
 					}
 					seen = map[ssa.Value]bool{}
-					if reaches(bo.X) && bo.Referrers() != nil {
+					if reaches(cx) && bo.Referrers() != nil {
 						for _, ref := range *bo.Referrers() {
 							switch ref.(type) {
 							case *ssa.If, *ssa.Phi:
